@@ -180,6 +180,23 @@ def _token_to_str(token: Token) -> str:
     return str(token.value)
 
 
+# Canonical text of the structural and operator tokens inside a bracketed pattern
+# (used when a token slice is turned back into pattern text: no token may be dropped)
+_PATTERN_TOKEN_TEXT: dict[TokenType, str] = {
+    TokenType.CONSTRAINT: "\u2227",
+    TokenType.FLOW: "\u2192",
+    TokenType.SECTION: "\u00a7",
+    TokenType.COMMA: ",",
+    TokenType.ASSIGN: "::",
+    TokenType.BLOCK: ":",
+    TokenType.TENSION: "\u21cc",
+    TokenType.SYNTHESIS: "\u2295",
+    TokenType.CONCAT: "\u29fa",
+    TokenType.ALTERNATIVE: "\u2228",
+    TokenType.AT: "@",
+}
+
+
 class ParserError(Exception):
     """Parser error with position information."""
 
@@ -2345,7 +2362,13 @@ class Parser:
             elif token.type == TokenType.LIST_END:
                 parts.append("]")
             elif token.type == TokenType.STRING:
-                parts.append(f'"{token.value}"')
+                # The pattern text is emitted and read again: write the string the way the
+                # emitter escapes strings, so that a quote, backslash, newline or tab in the
+                # example survives (the lexer has already removed the escapes from token.value)
+                escaped = (
+                    str(token.value).replace("\\", "\\\\").replace('"', '\\"').replace("\n", "\\n").replace("\t", "\\t")
+                )
+                parts.append(f'"{escaped}"')
             elif token.type == TokenType.NUMBER:
                 # Use raw lexeme if available to preserve format (e.g., 1e10)
                 if token.raw is not None:
@@ -2356,19 +2379,13 @@ class Parser:
                 parts.append("true" if token.value else "false")
             elif token.type == TokenType.NULL:
                 parts.append("null")
-            elif token.type == TokenType.CONSTRAINT:
-                parts.append("∧")
-            elif token.type == TokenType.FLOW:
-                parts.append("→")
-            elif token.type == TokenType.SECTION:
-                parts.append("§")
-            elif token.type == TokenType.COMMA:
-                parts.append(",")
-            elif token.type == TokenType.IDENTIFIER:
+            elif token.type in _PATTERN_TOKEN_TEXT:
+                parts.append(_PATTERN_TOKEN_TEXT[token.type])
+            elif token.type in (TokenType.IDENTIFIER, TokenType.VERSION, TokenType.VARIABLE):
                 parts.append(str(token.value))
             # Note: LPAREN/RPAREN are not supported by the lexer,
             # so TYPE(X) patterns will fail at tokenization level.
-            # Skip whitespace tokens
+            # Whitespace and comment tokens are skipped
 
         return "".join(parts)
 
